@@ -195,6 +195,42 @@ def r19_2(prog, out):
                           ["bb%d (%s)" % (x, bi.loc(x)) for x in esc][:10])
 
 
+def fresh_check_guard(prog, bi, bid, esc, ups, nots, counters):
+    """the way round the notify is decided by a reading of *both* counters taken after the last update (the waiters' own
+    availability test), not by the values the updates returned"""
+    from slicing import Slicer
+    sl = Slicer(prog)
+    nb = {e.bb for e in nots}
+    up_bbs = {u.bb for u in ups}
+    for x in esc:
+        t = bi.body.blocks[x].term
+        if t.k != "switch" or t.discr is None or t.discr.place is None:
+            continue
+        if not any(bi.cfg.can_reach(s2, n) for s2 in bi.cfg.succ[x] for n in nb):
+            continue
+        sd = sl.of(bid, t.discr)
+        if any((bid, u) in sd.sites for u in up_bbs):
+            return False            # decided from what fetch_add / fetch_sub returned: each caller sees its own half
+        loads = [(sb, sbb) for (sb, sbb) in sd.sites if prog.info(sb) is not None and prog.info(sb).call_at(sbb) is not None
+                 and prog.info(sb).call_at(sbb).callee is not None and prog.info(sb).call_at(sbb).callee.path.endswith("::load")]
+        read = set()
+        for c in counters:
+            if c in sd.fields:
+                read.add(c)
+        # the reading may be taken by a predicate of the type (`self.has_available_space()`): its loads are effects of that call
+        o = bi.trace(t.discr)
+        call_bbs = {sbb for (sb, sbb) in sd.sites if sb == bid} | ({o.data} if o.kind == "call" else set())
+        for e in prog.effects(bid):
+            if e.kind == "atomic_load" and e.bb in call_bbs:
+                for c in counters:
+                    if e.touches(c):
+                        read.add(c)
+                        loads.append((bid, e.bb))
+        if len(read) == len(counters) and loads and all(bi.cfg.dominates(u, x) for u in up_bbs):
+            return True
+    return False
+
+
 @rule("C19", "R19.3", "every change of the counters notifies all waiters", floor=2)
 def r19_3(prog, out):
     ty, cells = fc(prog)
@@ -242,7 +278,11 @@ def r19_3(prog, out):
             esc = bi.cfg.escapes(u.bb, {e.bb for e in nots})
             if esc is not None:
                 bad = esc
-        if bad:
+        if bad and fresh_check_guard(prog, bi, b.id, bad, ups, nots, counters):
+            out.undecided(key, bi.loc(bad[-1]), "after both updates the counters are read again and notify_waiters is skipped when that fresh reading shows no room: "
+                          "whether some release always sees the room it made (so that no waiter stays parked) is a memory-ordering argument over interleaved "
+                          "updates, not decided here")
+        elif bad:
             out.violation(key, bi.loc(bad[-1]), "a path updates the counters and returns without notify_waiters")
         elif any(bi.cfg.can_reach(nn.bb, u.bb) and not bi.cfg.can_reach(u.bb, nn.bb) for nn in nots for u in ups):
             out.violation(key, bi.loc(nots[0].bb), "waiters are notified before the counters are updated")
